@@ -793,7 +793,9 @@ class ndarray(_OpsMixin):
         if -1 in shape:
             k = shape.index(-1)
             rest = _prod([s for s in shape if s != -1])
-            shape[k] = self.size // rest if rest else 0
+            if rest == 0:
+                raise ValueError(f"cannot reshape array of size {self.size} into shape {tuple(shape)}")
+            shape[k] = self.size // rest
         if _prod(shape) != self.size:
             raise ValueError(f"cannot reshape array of size {self.size} into shape {tuple(shape)}")
         if self._contig:
@@ -2187,7 +2189,13 @@ def bincount(x, weights=None, minlength=0):
         for i, c in enumerate(xs):
             acc = _arith("add", acc, _ite(_eq(c, k), 1 if w is None else w[i], 0))
         out.append(acc)
-    # NOTE weights => float64 in numpy; prototype keeps exact ints
+    if w is not None:
+        # numpy accumulates weighted counts in float64: the exact integer sum converted to float (exact below 2^53; the harness bounds
+        # keep sums far below), carried as an int->float conversion term so that int(float(x)) round trips stay exact
+        wdt = asarray(weights).dtype
+        src = wdt if wdt.kind in "iub" else _I64
+        out = [(_uf_cast(c, _I64, _F64) if is_sym(c) else float(c)) for c in out] if wdt.kind != "f" else out
+        return ndarray(_Store(out), list(range(size)), (size,), _F64)
     return ndarray(_Store(out), list(range(size)), (size,), _I64)
 
 
